@@ -2,8 +2,11 @@
 
 kinds:
   graph    canonical object graph of a Processor before / after a copy site (sharing pattern)
+  sitefail a copy site asked to apply a rejected value: it raises and leaves the caller's objects alone
   observe  behavioural isolation of Observation runs against standalone exposures
   fitness  ModelFittingDataTree.fitness called directly, against standalone exposures
+  calibration  a real calibration on an archipelago of several islands: caller snapshot, every evaluated candidate and the
+           champions' simulated frames (update_processor via fitness / _apply_parameters) against standalone exposures
 """
 from __future__ import annotations
 
@@ -30,7 +33,17 @@ MAX_NODES = 1500
 # building the caller's objects
 # ----------------------------------------------------------------------------------------------
 def build(spec):
-    """-> (detector, pipeline, readout); fresh objects, nothing shared between two builds."""
+    """-> (detector, pipeline, readout); fresh objects, nothing shared between two builds.
+
+    Optional spec keys (all deterministic, so that two builds of the same spec are equal in value):
+      ndarray_args  ["<group>.<model>.<arg>"]  the (list) argument is given as a numpy array
+      tuple_args    ["<group>.<model>.<arg>"]  the (list of lists) argument is given as a tuple of lists
+      memory        x        an ad-hoc attribute on the detector (read by verif_probes.stateful)
+      real_memory   {k: x}   entries of the detector's own `_memory` dict (arrays)
+      persistence   x        a SimplePersistence object with trapped charge x in every pixel
+      pre_exposure  n        the caller has already used these very objects for n plain exposures (which work in
+                             place): buckets hold arrays, memory / trapped charge / list arguments have moved on
+    """
     from harness import pyx
 
     spec = copy.deepcopy(spec)
@@ -43,9 +56,41 @@ def build(spec):
         group, mname, arg = ref.split(".")
         model = getattr(getattr(pipe, group), mname)
         model.arguments[arg] = np.array(model.arguments[arg], dtype=float)
+    for ref in spec.get("tuple_args") or []:
+        group, mname, arg = ref.split(".")
+        model = getattr(getattr(pipe, group), mname)
+        model.arguments[arg] = tuple(model.arguments[arg])
     if spec.get("memory") is not None:
         setattr(det, "_verif_memory", spec["memory"])
+    for k, v in (spec.get("real_memory") or {}).items():
+        det._memory[k] = np.array([float(v)], dtype=float)
+    if spec.get("persistence") is not None:
+        from pyxel.data_structure import SimplePersistence
+
+        geo = det.geometry
+        pers = SimplePersistence(trap_time_constants=[1.0], trap_densities=[0.5], geometry=(geo.row, geo.col))
+        pers.trapped_charge_array = np.full((1, geo.row, geo.col), float(spec["persistence"]), dtype=float)
+        det.persistence = pers
+    for _ in range(int(spec.get("pre_exposure") or 0)):
+        pyx.run_exposure(det, pipe, readout)
     return det, pipe, readout
+
+
+def apply_params_direct(det, pipe, params):
+    """Apply a run's parameter values on freshly built objects WITHOUT Processor.set (plain item / attribute
+    assignment of an independent copy of the value)."""
+    for key, value in params.items():
+        parts = key.split(".")
+        if parts[0] == "pipeline" and len(parts) == 5 and parts[3] == "arguments":
+            model = getattr(getattr(pipe, parts[1]), parts[2])
+            model.arguments[parts[4]] = copy.deepcopy(value)
+        elif parts[0] == "detector" and len(parts) == 3 and parts[1] in ("characteristics", "environment"):
+            getattr(det, parts[1])                       # the section must exist
+            if not hasattr(type(getattr(det, parts[1])), parts[2]):
+                raise KeyError(key)
+            setattr(getattr(det, parts[1]), parts[2], value)
+        else:
+            raise KeyError(key)
 
 
 def _spec_with_params(spec, params):
@@ -72,14 +117,14 @@ def _spec_with_params(spec, params):
 
 
 def build_with_params(spec, params):
+    if spec.get("pre_exposure") or spec.get("direct_params"):
+        # the history of the caller's objects comes first, the run's values are applied on the result
+        det, pipe, readout = build(spec)
+        apply_params_direct(det, pipe, params)
+        return det, pipe, readout
     spec2, rest = _spec_with_params(spec, params)
     det, pipe, readout = build(spec2)
-    for key, value in rest.items():
-        parts = key.split(".")
-        if parts[0] == "detector" and len(parts) == 3 and parts[1] in ("characteristics", "environment"):
-            setattr(getattr(det, parts[1]), parts[2], value)
-        else:
-            raise KeyError(key)
+    apply_params_direct(det, pipe, rest)
     return det, pipe, readout
 
 
@@ -331,6 +376,10 @@ def mem_owners(o, keep):
 # value snapshot
 # ----------------------------------------------------------------------------------------------
 SNAP_SKIP_NAMES = ("_log", "_func")
+# not contents a run can depend on: caches, the name of the running model, debug data, and the buckets / scene / readout
+# clock that exposure.run_pipeline resets before the first step of EVERY run (detector.empty(), set_readout)
+LOST_IGNORED = ("_numbytes", "current_running_model_name", "_intermediate", "_scene", "_photon", "_charge", "_pixel",
+                "_signal", "_image", "_readout_properties")
 
 
 def _crc(s) -> int:
@@ -467,28 +516,41 @@ def _exc(ex) -> str:
     return type(ex).__name__
 
 
-def _make_fitting(proc, variables, readout, rows, cols, target):
-    """variables: [(key, lo, hi)] scalar ones."""
+def _make_fitting(proc, variables, readout, rows, cols, target, input_arguments=None):
+    """variables: [(key, lo, hi)] scalar ones or [(key, lo, hi, n)] list-valued ones (n >= 1 entries of the decision
+    vector); input_arguments: [(key, [v_0, .., v_{m-1}])] -> m processors (build_processors), one target file each."""
     from pyxel.calibration.fitness import sum_of_abs_residuals
     from pyxel.calibration.fitting_datatree import ModelFittingDataTree
     from pyxel.calibration.util import FitRange2D, FitRange3D
     from pyxel.observation import ParameterValues
 
-    pvs = [ParameterValues(key=k, values="_", boundaries=(lo, hi)) for (k, lo, hi) in variables]
-    if readout.time_domain_simulation:
-        # any Readout built with explicit `times` is a "time domain simulation": the target must be a
-        # (readout_time, y, x) cube.  A FitRange3D target range cannot be used (pyxel applies its "time" key
-        # on a "readout_time" dimension), a FitRange2D one covers the full cube.
-        nt = len(readout.times)
-        np.save("target.npy", np.full((nt, rows, cols), float(target), dtype=float))
-    else:
-        np.save("target.npy", np.full((rows, cols), float(target), dtype=float))
+    pvs = []
+    for var in variables:
+        k, lo, hi = var[0], var[1], var[2]
+        n = var[3] if len(var) > 3 and var[3] else None
+        pvs.append(ParameterValues(key=k, values="_" if n is None else ["_"] * n, boundaries=(lo, hi)))
+    nproc = len(input_arguments[0][1]) if input_arguments else 1
+    names = []
+    for i in range(nproc):
+        name = "target.npy" if nproc == 1 else "target%d.npy" % i
+        if readout.time_domain_simulation:
+            # any Readout built with explicit `times` is a "time domain simulation": the target must be a
+            # (readout_time, y, x) cube.  A FitRange3D target range cannot be used (pyxel applies its "time" key
+            # on a "readout_time" dimension), a FitRange2D one covers the full cube.
+            nt = len(readout.times)
+            np.save(name, np.full((nt, rows, cols), float(target), dtype=float))
+        else:
+            np.save(name, np.full((rows, cols), float(target), dtype=float))
+        names.append(Path(name))
+    kw = {}
+    if input_arguments:
+        kw["input_arguments"] = [ParameterValues(key=k, values=list(vals)) for k, vals in input_arguments]
     return ModelFittingDataTree(
         processor=proc, variables=pvs, readout=readout, simulation_output="pixel", generations=1,
         population_size=1, fitness_func=sum_of_abs_residuals, file_path=None,
         target_fit_range=FitRange2D(row=slice(0, rows), col=slice(0, cols)),
         out_fit_range=FitRange3D.from_sequence([0, rows, 0, cols]),
-        target_filenames=[Path("target.npy")], with_inherited_coords=True,
+        target_filenames=names, with_inherited_coords=True, **kw
     )
 
 
@@ -588,12 +650,75 @@ def do_graph(p, keep):
                             seen.add((i, j))
                             shared.append([i, n0 + j])
     s1 = snapshot(proc)
+    # completeness of the copy: the copy's detector holds, value for value, what the caller's detector holds
+    # (memory, trapped charge, bucket contents included); caches and the name of the running model are not contents
+    lost = []
+    if site_error is None and new is not None and not any(k.startswith("detector.") for k in params):
+        a = snapshot(proc.detector, prefix="detector")
+        b = snapshot(new.detector, prefix="detector")
+        lost = [q for q in snap_diff(a, b) if not any(
+            q.startswith("detector." + t) for t in LOST_IGNORED)]
     res.update({
         "n0": n0, "orig": g0, "copy": g1, "copy_root": copy_root, "shared_mem": sorted(shared),
+        "lost": lost[:10],
         "orig_changed": snap_diff(s0, s1)[:10], "site_error": site_error,
         "types": sorted({type(x).__name__ for x in list(order0) + list(order1)}),
     })
     return res
+
+
+# ----------------------------------------------------------------------------------------------
+# kind "sitefail": a copy site is asked to apply a value that a setter rejects
+# ----------------------------------------------------------------------------------------------
+def do_sitefail(p, keep):
+    from pyxel.observation import Observation, ParameterValues
+    from pyxel.pipelines import Processor
+    from harness import pyx
+
+    spec = p["spec"]
+    site = p["site"]
+    params = dict(p.get("params") or {})
+    det, pipe, readout = build(spec)
+    obs = None
+    if p.get("with_obs"):
+        obs = Observation(parameters=[ParameterValues(key=k, values=[v, v]) for k, v in params.items()
+                                      if _is_scalar(v)], readout=readout)
+    proc = Processor(det, pipe, observation_mode=obs)
+    keep.append(proc)
+    mf = None
+    if site == "update_processor":
+        geo = det.geometry
+        mf = _make_fitting(proc, [(k, 0, 1000) for k in params], pyx.make_readout(times=[1.0]), geo.row, geo.col, 0.0)
+        keep.append(mf)
+    s0 = _snap_many(detector=det, pipeline=pipe, readout=readout)
+    raised = None
+    new = None
+    try:
+        if site == "replace":
+            new = proc.replace(params)
+        elif site == "create_new_processor":
+            from pyxel.observation.misc import create_new_processor
+            new = create_new_processor(processor=proc, parameter_dict=params)
+        elif site == "build_processors":
+            from pyxel.calibration.fitting_datatree import build_processors
+            new = build_processors(processor=proc,
+                                   arguments=[ParameterValues(key=k, values=[v, v]) for k, v in params.items()])[0]
+        elif site == "update_processor":
+            new = mf.update_processor(parameter=np.array(list(params.values()), dtype=float), processor=proc)
+        else:
+            return {"error": "unknown site %r" % (site,)}
+    except Exception as ex:  # noqa: BLE001
+        raised = _exc(ex)
+    keep.append(new)
+    s1 = _snap_many(detector=det, pipeline=pipe, readout=readout)
+    std_raised = None
+    try:
+        d2, p2, _ = build(spec)
+        apply_params_direct(d2, p2, params)
+    except Exception as ex:  # noqa: BLE001
+        std_raised = _exc(ex)
+    return {"raised": raised, "std_raised": std_raised, "changed": snap_diff(s0, s1)[:10],
+            "returned_caller": new is proc}
 
 
 # ----------------------------------------------------------------------------------------------
@@ -631,15 +756,25 @@ def _flatten_core(da):
     return [float(v) for v in arr.reshape(-1)]
 
 
+def _norm_label(v):
+    if isinstance(v, (list, tuple, np.ndarray)):
+        return tuple(_norm_label(x) for x in v)
+    if isinstance(v, (int, float, np.integer, np.floating)) and not isinstance(v, bool):
+        return float(v)
+    return v
+
+
 def _select_dim(da, dim, label, pos, nvalues):
-    coord = np.asarray(da[dim].values)
+    coord = da[dim].values
     try:
-        hits = np.nonzero(coord == label)[0]
+        # value-labelled dimension; a list-valued parameter is labelled with tuples (possibly re-ordered by xarray)
+        want = _norm_label(label)
+        hits = [i for i, c in enumerate(list(coord)) if _norm_label(c) == want]
     except Exception:  # noqa: BLE001
         hits = []
     if len(hits) == 1:
         return da.isel({dim: int(hits[0])}), "label"
-    if len(coord) == nvalues:
+    if len(coord) == nvalues and not isinstance(label, (list, tuple, np.ndarray)):
         return da.isel({dim: pos}), "position"
     raise ValueError("cannot select %r in dim %r (coord %r)" % (label, dim, coord.tolist()))
 
@@ -728,8 +863,12 @@ def do_observe(p, keep):
             obs = Observation(
                 parameters=[ParameterValues(key=k, values=copy.deepcopy(v)) for k, v in plist],
                 readout=readout, mode=mode, with_dask=bool(call.get("with_dask")), outputs=None)
-            dt = pyxel.run_mode(mode=obs, detector=det, pipeline=pipe, with_inherited_coords=True)
-            da = _pixel_da(dt).compute()
+            sched = call.get("scheduler") or "synchronous"
+            import dask
+
+            with dask.config.set(scheduler=sched, **({"num_workers": 3} if sched == "threads" else {})):
+                dt = pyxel.run_mode(mode=obs, detector=det, pipeline=pipe, with_inherited_coords=True)
+                da = _pixel_da(dt).compute()
             rec["dims"] = [str(d) for d in da.dims]
         except Exception as ex:  # noqa: BLE001
             rec["raised"] = _exc(ex)
@@ -766,27 +905,30 @@ def do_fitness(p, keep):
 
     spec = p["spec"]
     target = float(p.get("target", 0.0))
-    variables = [(v["key"], v.get("lo", 0), v.get("hi", 1000)) for v in p.get("variables") or []]
+    variables = [(v["key"], v.get("lo", 0), v.get("hi", 1000), v.get("n")) for v in p.get("variables") or []]
+    inputs = [(q["key"], list(q["values"])) for q in p.get("input_arguments") or []]
+    nproc = len(inputs[0][1]) if inputs else 1
     det, pipe, readout = build(spec)
     proc = Processor(det, pipe)
     keep.append(proc)
     rows, cols = det.geometry.row, det.geometry.col
     try:
-        mf = _make_fitting(proc, variables, readout, rows, cols, target)
+        mf = _make_fitting(proc, variables, readout, rows, cols, target, input_arguments=inputs or None)
     except Exception as ex:  # noqa: BLE001
         return {"init_raised": _exc(ex), "init_msg": str(ex)[:300], "evals": []}
     keep.append(mf)
-    template = mf.param_processor_list[0]
+    templates = list(mf.param_processor_list)
     b_caller = snapshot(proc)
-    b_templ = snapshot(template)
+    b_templ = _snap_many(**{"t%d" % i: t for i, t in enumerate(templates)})
     out = {"before_caller": snap_list(b_caller), "before_template": snap_list(b_templ), "evals": [],
-           "template_is_caller": template is proc}
+           "template_is_caller": any(t is proc for t in templates), "processors": len(templates)}
     for vec in p.get("vectors") or []:
         rec = {"vec": list(vec), "obs": None, "raised": None, "std": None, "std_raised": None}
         prev_disabled = logging.root.manager.disable
+        arg = np.array(vec, dtype=float)
         try:
             logging.disable(logging.CRITICAL)      # fitness() logs the traceback with logging.exception
-            f = mf.fitness(np.array(vec, dtype=float))[0]
+            f = mf.fitness(arg)[0]
             rec["obs"] = int(round(float(f) * 1024))
             if abs(rec["obs"] / 1024 - float(f)) > 1e-9:
                 rec["inexact"] = True
@@ -794,25 +936,187 @@ def do_fitness(p, keep):
             rec["raised"] = _exc(ex)
         finally:
             logging.disable(prev_disabled)
+        rec["vector_changed"] = [float(x) for x in arg] != [float(x) for x in vec]
         a_caller = snapshot(proc)
-        a_templ = snapshot(mf.param_processor_list[0])
+        a_templ = _snap_many(**{"t%d" % i: t for i, t in enumerate(mf.param_processor_list)})
         rec["caller_changed"] = snap_diff(b_caller, a_caller)[:10]
         rec["template_changed"] = snap_diff(b_templ, a_templ)[:10]
-        rec["after_caller"] = snap_list(a_caller)
+        if rec["vector_changed"]:
+            rec["caller_changed"] = (rec["caller_changed"] + ["<decision vector>"])[:10]
+        rec["after_caller"] = snap_list(a_caller) + ([1] if rec["vector_changed"] else [])
         rec["after_template"] = snap_list(a_templ)
-        params = {k: float(v) for (k, _, _), v in zip(variables, vec)}
-        _, _, raised, vals = _standalone(spec, params)
-        if raised is not None:
-            rec["std_raised"] = raised
-        else:
+        # the candidate's parameter values: scalars and slices of the decision vector
+        params = {}
+        a = 0
+        for (k, _, _, n) in variables:
+            if n:
+                params[k] = [float(x) for x in vec[a:a + n]]
+                a += n
+            else:
+                params[k] = float(vec[a])
+                a += 1
+        total = 0.0
+        for i in range(nproc):
+            pi = dict(params)
+            for k, vals in inputs:
+                pi[k] = vals[i]
+            _, _, raised, vals_i = _standalone(spec, pi)
+            if raised is not None:
+                rec["std_raised"] = raised
+                break
             try:
-                sim = np.array(vals, dtype=float).reshape((-1, rows, cols))
+                sim = np.array(vals_i, dtype=float).reshape((-1, rows, cols))
                 tgt = np.full((rows, cols), target, dtype=float)
-                fs = float(np.nansum(np.abs(tgt - sim)))
-                rec["std"] = int(round(fs * 1024))
+                total += float(np.nansum(np.abs(tgt - sim)))
             except Exception as ex:  # noqa: BLE001
                 rec["std_raised"] = _exc(ex)
+                break
+        if rec["std_raised"] is None:
+            rec["std"] = int(round(total * 1024))
         out["evals"].append(rec)
+    return out
+
+
+# ----------------------------------------------------------------------------------------------
+# kind "calibration": a REAL calibration (pygmo archipelago, several islands evaluating candidates concurrently)
+# ----------------------------------------------------------------------------------------------
+TOL = 1e-9
+
+
+def _close(a, b) -> bool:
+    return abs(a - b) <= TOL * max(1.0, abs(a), abs(b))
+
+
+def _canon_pair(obs, std):
+    """Two lists of floats -> two lists of ints that are equal iff the floats agree within TOL (the candidates are
+    arbitrary binary64 values chosen by pygmo: no exact rational form; tolerance on this oracle only)."""
+    si = [int(round(v * 1024)) for v in std]
+    if len(obs) == len(std) and all(_close(a, b) for a, b in zip(obs, std)):
+        return list(si), si
+    oi = [int(round(v * 1024)) for v in obs]
+    if oi == si:
+        oi = oi + [1]
+    return oi, si
+
+
+def do_calibration(p, keep):
+    import pyxel
+    from pyxel.calibration import Algorithm, Calibration
+    from pyxel.calibration.fitting_datatree import ModelFittingDataTree
+    from pyxel.observation import ParameterValues
+    from pyxel.pipelines import FitnessFunction
+
+    spec = p["spec"]
+    target = float(p.get("target", 0.0))
+    variables = [(v["key"], float(v["lo"]), float(v["hi"])) for v in p["variables"]]
+    inputs = [(q["key"], list(q["values"])) for q in p.get("input_arguments") or []]
+    nproc = len(inputs[0][1]) if inputs else 1
+    det, pipe, readout = build(spec)
+    keep.append((det, pipe, readout))
+    rows, cols = det.geometry.row, det.geometry.col
+    nt = len(readout.times)
+    names = []
+    for i in range(nproc):
+        name = str(Path("ctarget%d.npy" % i).resolve())
+        np.save(name, np.full((nt, rows, cols), target, dtype=float))
+        names.append(name)
+    cal = Calibration(
+        target_data_path=names,
+        fitness_function=FitnessFunction(func="pyxel.calibration.fitness.sum_of_abs_residuals"),
+        algorithm=Algorithm(type="sade", generations=int(p.get("generations", 1)),
+                            population_size=int(p.get("pop", 7))),
+        parameters=[ParameterValues(key=k, values="_", boundaries=(lo, hi)) for k, lo, hi in variables],
+        result_input_arguments=([ParameterValues(key=k, values=list(v)) for k, v in inputs] or None),
+        readout=readout, result_type="pixel", result_fit_range=(0, rows, 0, cols), target_fit_range=(0, rows, 0, cols),
+        pygmo_seed=int(p.get("pygmo_seed", 1)), num_islands=int(p.get("islands", 2)),
+        num_evolutions=int(p.get("evolutions", 1)), num_best_decisions=int(p.get("num_best", 0)),
+        topology="ring" if int(p.get("islands", 2)) > 1 else "unconnected")
+    log, lock = [], threading.Lock()
+    orig_fit = ModelFittingDataTree.fitness
+
+    problems = []
+
+    def wrapped(self, decision_vector_1d):
+        x0 = [float(v) for v in np.array(decision_vector_1d, dtype=float)]
+        f = orig_fit(self, decision_vector_1d)
+        with lock:
+            log.append((x0, float(f[0]), threading.current_thread().name))
+            if not any(q is self for q in problems):
+                problems.append(self)
+        return f
+
+    before = _snap_many(detector=det, pipeline=pipe, readout=readout)
+    out = {"before": snap_list(before), "raised": None, "evals": [], "champions": []}
+    ModelFittingDataTree.fitness = wrapped
+    prev_disabled = logging.root.manager.disable
+    dt = None
+    try:
+        logging.disable(logging.CRITICAL)
+        import dask
+
+        with dask.config.set(scheduler=p.get("scheduler") or "threads"):
+            dt = pyxel.run_mode(mode=cal, detector=det, pipeline=pipe, with_inherited_coords=True)
+        champ = np.asarray(dt["/champion/parameters"].isel(evolution=-1).values, dtype=float)   # island, param
+    except Exception as ex:  # noqa: BLE001
+        out["raised"] = _exc(ex)
+        out["raised_msg"] = str(ex)[:300]
+    finally:
+        ModelFittingDataTree.fitness = orig_fit
+        logging.disable(prev_disabled)
+    after = _snap_many(detector=det, pipeline=pipe, readout=readout)
+    out["after"] = snap_list(after)
+    out["changed"] = snap_diff(before, after)[:10]
+    out["n_evals"] = len(log)
+    out["threads"] = len({t for _, _, t in log})
+
+    def standalone_fitness(x):
+        params = {k: float(v) for (k, _, _), v in zip(variables, x)}
+        total = 0.0
+        sims = []
+        for i in range(nproc):
+            pi = dict(params)
+            for k, vals in inputs:
+                pi[k] = vals[i]
+            _, _, raised, vals_i = _standalone(spec, pi)
+            if raised is not None:
+                return None, None, raised
+            a = np.array(vals_i, dtype=float).reshape((-1, rows, cols))
+            sims.append(a)
+            total += float(np.nansum(np.abs(np.full((rows, cols), target) - a)))
+        return total, sims, None
+
+    # every candidate evaluated by the islands is judged against an independently built exposure (a sample of them when
+    # there are many: first, last and evenly spaced ones)
+    limit = int(p.get("max_judged", 24))
+    idx = list(range(len(log)))
+    if len(idx) > limit:
+        step = len(idx) / float(limit)
+        idx = sorted({int(i * step) for i in range(limit)} | {0, len(log) - 1})
+    for i in idx:
+        x, f, _ = log[i]
+        total, _, raised = standalone_fitness(x)
+        if raised is not None:
+            out["evals"].append({"x": x, "obs": [int(round(f * 1024))], "std": None, "std_raised": raised})
+            continue
+        oi, si = _canon_pair([f], [total])
+        out["evals"].append({"x": x, "obs": oi, "std": si, "f": f, "f_std": total})
+    if dt is not None and out["raised"] is None and problems:
+        for isl in range(champ.shape[0]):
+            x = [float(v) for v in champ[isl]]
+            _, sims, raised = standalone_fitness(x)
+            if raised is not None:
+                out["champions"].append({"x": x, "obs": [0], "std": None, "std_raised": raised})
+                continue
+            # the champion's frames as the calibration's own post-processing computes them (_apply_parameters on each
+            # template processor; the /simulated nodes of the returned tree cannot be computed: finding C11-resim)
+            mf = problems[0]
+            obs = []
+            for tmpl in mf.param_processor_list:
+                tree = mf._apply_parameters(processor=tmpl, parameter=np.array(x, dtype=float))
+                obs += _flatten_core(_pixel_da(tree))
+            std = [float(v) for a in sims for v in a.reshape(-1)]
+            oi, si = _canon_pair(obs, std)
+            out["champions"].append({"x": x, "obs": oi, "std": si})
     return out
 
 
@@ -832,10 +1136,14 @@ def handle(p):
     try:
         if kind == "graph":
             return do_graph(p, keep)
+        if kind == "sitefail":
+            return do_sitefail(p, keep)
         if kind == "observe":
             return do_observe(p, keep)
         if kind == "fitness":
             return do_fitness(p, keep)
+        if kind == "calibration":
+            return do_calibration(p, keep)
         return {"error": "unknown kind %r" % (kind,)}
     except Exception as ex:  # noqa: BLE001
         import traceback
